@@ -141,6 +141,30 @@ def pose_errors(T, G):
     return ang, [float(np.linalg.norm(vs)), float(np.linalg.norm(vb)), float(np.linalg.norm(dp))]
 
 
+def fk_variants(screws, M, theta, lib_fk):
+    """All readings of "forward kinematics of theta" that differ only by Modern Robotics' NearZero rule.
+
+    The library's FKinSpace drops the rotation of any joint whose angle is below 1e-6 rad, and it is not 2*pi
+    periodic at that level (760.2654 rad is rotated exactly, its wrapped image 6e-9 rad is dropped).  A solver
+    that iterates with that FK and then wraps its answer therefore agrees with neither the library FK nor an
+    exact product of exponentials of the *returned* vector, but with one where some of the tiny angles are
+    dropped and others kept.  Yields the library reading, the exact one, and (only when tiny angles exist) every
+    keep/drop combination -- at most 2^n, n <= 7.
+    """
+    theta = np.asarray(theta, float).reshape(-1)
+    yield np.array(lib_fk(M, screws, theta.copy()), float)
+    yield poe(screws, M, theta)
+    wrapped = (theta + math.pi) % (2 * math.pi) - math.pi
+    tiny = [j for j in range(len(theta)) if abs(wrapped[j]) < 1e-6 and wrapped[j] != 0.0]
+    if tiny:
+        for mask in range(1, 2 ** len(tiny)):
+            t2 = theta.copy()
+            for b, j in enumerate(tiny):
+                if mask >> b & 1:
+                    t2[j] = t2[j] - wrapped[j]      # drop the tiny part, keep the full turns
+            yield poe(screws, M, t2)
+
+
 def ang_diff(a, b):
     d = (np.asarray(a, float) - np.asarray(b, float) + math.pi) % (2 * math.pi) - math.pi
     return float(np.max(np.abs(d))) if d.size else 0.0
@@ -279,8 +303,7 @@ class IKRun:
         arm = self.arm
         ee = np.array(arm.getEEPos().gTM(), float)
         S, M = self.geom()
-        return min(float(np.max(np.abs(ee - self.fk(arm._theta)))),
-                   float(np.max(np.abs(ee - poe(S, M, np.asarray(arm._theta, float).reshape(-1))))))
+        return min(float(np.max(np.abs(ee - T))) for T in fk_variants(S, M, arm._theta, _load()["fmr"].FKinSpace))
 
     def goal_tm(self, g):
         tm = _load()["tm"]
@@ -462,17 +485,19 @@ class IKRun:
             # reading and wrong under the library's, a solution with a 1e-8 joint angle the other way round.  Only a
             # claim that is wrong under BOTH readings is a violation (the discrepancy itself is C05's business).
             S_, M_ = self.geom()
-            ang, lin = pose_errors(self.fk(theta), G)
-            ang_x, lin_x = pose_errors(poe(S_, M_, theta), G)
-            ok_lib = ang <= rot_tol * (1 + 1e-6) + 1e-12 and min(lin) <= pos_tol * (1 + 1e-6) + 1e-12
-            ok_x = ang_x <= rot_tol * (1 + 1e-6) + 1e-12 and min(lin_x) <= pos_tol * (1 + 1e-6) + 1e-12
-            if ok_x and not ok_lib:
-                ang, lin = ang_x, lin_x
-                P["reached_only_under_exact_fk"] += 1
-            elif ok_lib and not ok_x:
-                P["reached_only_under_library_fk"] += 1
-            elif not ok_lib and not ok_x and (ang_x, min(lin_x)) < (ang, min(lin)):
-                ang, lin = ang_x, lin_x
+            ang = lin = None
+            for vi, T in enumerate(fk_variants(S_, M_, theta, _load()["fmr"].FKinSpace)):
+                a_, l_ = pose_errors(T, G)
+                ok_ = a_ <= rot_tol * (1 + 1e-6) + 1e-12 and min(l_) <= pos_tol * (1 + 1e-6) + 1e-12
+                if ang is None or ok_ or (a_ / max(rot_tol, 1e-300) + min(l_) / max(pos_tol, 1e-300)
+                                           < ang / max(rot_tol, 1e-300) + min(lin) / max(pos_tol, 1e-300)):
+                    ang, lin = a_, l_
+                if ok_:
+                    if vi == 1:
+                        P["reached_only_under_exact_fk"] += 1
+                    elif vi > 1:
+                        P["reached_only_under_mixed_nearzero_reading"] += 1
+                    break
             detail = dict(sig, rot_tol=rot_tol, pos_tol=pos_tol, ang=ang, lin=min(lin), restarts=restarts,
                           reachable=info["reachable"], raw_free_max=self.raw_free_max)
             if self.raw_free_max >= 1e4:
@@ -501,10 +526,14 @@ class IKRun:
                 raise Violation("K-state", "%s reported success with theta %r but the arm stores %r" % (
                     op, np.round(theta, 6).tolist(), np.round(stored, 6).tolist()), detail)
             ee = np.array(arm.getEEPos().gTM(), float)
-            a2, l2 = pose_errors(self.fk(stored), ee)
-            a3, l3 = pose_errors(poe(S_, M_, stored), ee)
-            if ((a2 > rot_tol * (1 + 1e-6) + ANG_BLIND or min(l2) > pos_tol * (1 + 1e-6) + 1e-9) and
-                    (a3 > rot_tol * (1 + 1e-6) + ANG_BLIND or min(l3) > pos_tol * (1 + 1e-6) + 1e-9)):
+            a2 = l2 = None
+            state_ok = False
+            for T in fk_variants(S_, M_, stored, _load()["fmr"].FKinSpace):
+                a2, l2 = pose_errors(T, ee)
+                if a2 <= rot_tol * (1 + 1e-6) + ANG_BLIND and min(l2) <= pos_tol * (1 + 1e-6) + 1e-9:
+                    state_ok = True
+                    break
+            if not state_ok:
                 raise Violation("K-state", "%s reported success; the reported tool pose differs from FK(stored joints) by "
                                 "%.3e rad / %.3e" % (op, a2, min(l2)), detail)
             if restarts == 0:
@@ -540,7 +569,7 @@ class IKRun:
                     raise Violation("K-local", "%s (%s path) started %.4f rad (2-norm) from an in-limit, non-singular solution "
                                     "(sigma_min %.3f, margin %.3f rad) and reported failure (max_iters=%d, tolerances %.1e/%.1e)" % (
                                         op, path, ok_pre[0], ok_pre[1], ok_pre[2], st.get("max_iters", 30), pos_tol, rot_tol),
-                                    dict(sig, max_iters=st.get("max_iters", 30)))
+                                    dict(sig, max_iters=st.get("max_iters", 30), min_tol=min(pos_tol, rot_tol)))
         # reach probes / classes
         if pos_tol > rot_tol:
             P["tol_pos_gt_rot"] += 1
@@ -1018,6 +1047,6 @@ def signature(trace, violation):
     d = violation.detail
     last = trace["steps"][-1] if trace["steps"] else {}
     return {"clause": violation.clause, "op": d.get("op", last.get("op")), "path": d.get("path"), "ang": d.get("ang"),
-            "rot_tol": d.get("rot_tol"), "raw_free_max": d.get("raw_free_max"), "lin": d.get("lin"),
+            "rot_tol": d.get("rot_tol"), "raw_free_max": d.get("raw_free_max"), "lin": d.get("lin"), "min_tol": d.get("min_tol"),
             "arm": d.get("arm"), "exception": d.get("exception"), "check": last.get("check"),
             "n_steps": len(trace["steps"]), "reachable": d.get("reachable")}
